@@ -1,6 +1,6 @@
 (* wire encoding of the C19 cases; exported functions are [x_*] : val -> val *)
 From Coq Require Import ZArith List Bool.
-From V Require Import Val Bytes C19PTree C19Sniffer C19Mux.
+From V Require Import Val Bytes C19PTree C19Sniffer C19Mux C19Conc.
 Import ListNotations.
 Open Scope Z_scope.
 
@@ -108,3 +108,35 @@ Definition x_C19_loop_ok (v : val) : val :=
   vbool (loop_wf (as_bytes (nthv 1 c)) (as_int (nthv 2 c)) &&
          ok_loop (as_bytes (nthv 1 c)) (as_int (nthv 2 c)) (as_bool (nthv 7 c))
                  (dec_dec (nthv 0 obs)) (as_nat (nthv 1 obs)) (as_int (nthv 2 obs)) (as_bool (nthv 3 obs))).
+
+(* ---- several connections classified at the same time.
+   case = (tables ((script svc) ...) schedule); the schedule only drives the
+   implementation (which fragment is released when): by C19_connections_independent
+   the prediction for each connection is Listener.serve on it alone.
+   observation = ((decision closed handed rem0 ((d e rem)...)) ...) *)
+Definition dec_conns (v : val) : list (script * list nat) :=
+  map (fun c => (dec_script (nthv 0 c), dec_sizes (nthv 1 c))) (as_list v).
+Definition enc_cobs (o : decision * bool * nat * nat * list sres) : val :=
+  let '(d, closed, handed, rem0, rs) := o in
+  VL [enc_dec d; vbool closed; vnat handed; vnat rem0; vlist enc_sres rs].
+Definition dec_cobs (v : val) : decision * bool * nat * nat * list sres :=
+  (dec_dec (nthv 0 v), as_bool (nthv 1 v), as_nat (nthv 2 v), as_nat (nthv 3 v), map dec_sres (as_list (nthv 4 v))).
+Definition x_C19_conc_run (c : val) : val :=
+  vlist enc_cobs (conc_run (dec_tables (nthv 0 c)) (dec_conns (nthv 1 c))).
+Definition x_C19_conc_ok (v : val) : val :=
+  let c := nthv 0 v in let obs := nthv 1 v in
+  vbool (ok_conc (dec_tables (nthv 0 c)) (dec_conns (nthv 1 c)) (map dec_cobs (as_list obs))).
+
+(* concurrent real loopback connections: case = ((payload split) ...) schedule);
+   observation = ((decision handed nrecv equal) ...); each connection is judged like a
+   "loop" case on its own payload *)
+Definition x_C19_cloop_run (c : val) : val :=
+  vlist (fun k => let '(d, handed, nrecv, eq) := loop_run (as_bytes (nthv 0 k)) 0 false in
+                  VL [enc_dec d; vnat handed; VI nrecv; vbool eq]) (as_list (nthv 0 c)).
+Definition x_C19_cloop_ok (v : val) : val :=
+  let c := nthv 0 v in let obs := nthv 1 v in
+  vbool (Nat.eqb (length (as_list (nthv 0 c))) (length (as_list obs)) &&
+         forallb (fun ko => ok_loop (as_bytes (nthv 0 (fst ko))) 0 false
+                                    (dec_dec (nthv 0 (snd ko))) (as_nat (nthv 1 (snd ko)))
+                                    (as_int (nthv 2 (snd ko))) (as_bool (nthv 3 (snd ko))))
+                 (combine (as_list (nthv 0 c)) (as_list obs))).
